@@ -17,4 +17,6 @@ def obligations(tier):
         if ob.name.startswith('lemma/'):
             ob.name = 'snappy-compressor-' + ob.name
             o.append(ob)
+        elif ob.name.startswith('ref-decodes/') and 'concrete-incompressible' in ob.name:
+            o.append(ob)      # compressor output at the lengths where the literal-length forms change, decoded by the reference decoders
     return o
